@@ -50,12 +50,13 @@ func checker(sub, part string) func(Case) *vk.Failure {
 		vk.Sample(sub+"-"+part, c)
 		x.step, x.opDesc = -1, "constructor"
 		if c.CheckFrom <= 0 {
-			if f := x.compare(x.queryIDs(false)); f != nil {
+			if f := x.compare(x.queryIDs(false), nil); f != nil {
 				return f
 			}
 		}
 		for i, op := range c.Ops {
 			x.step = i
+			x.prev, x.cur = x.cur, x.prev[:0]
 			if f := x.apply(op); f != nil {
 				return f
 			}
@@ -63,7 +64,21 @@ func checker(sub, part string) func(Case) *vk.Failure {
 			if i >= c.CheckFrom {
 				x.opDesc += "; queries afterwards"
 				last := i == len(c.Ops)-1
-				if f := x.compare(x.queryIDs(last)); f != nil {
+				ids := x.queryIDs(last)
+				// all pairs while the query set is small, periodically and at
+				// the end; otherwise the rows and columns of the IDs affected
+				// by this step and the previous one
+				var recent map[int64]bool
+				if !last && len(ids) > 12 && i%16 != 15 {
+					recent = make(map[int64]bool, len(x.cur)+len(x.prev))
+					for _, id := range x.cur {
+						recent[id] = true
+					}
+					for _, id := range x.prev {
+						recent[id] = true
+					}
+				}
+				if f := x.compare(ids, recent); f != nil {
 					return f
 				}
 			}
